@@ -264,7 +264,7 @@ def coq_eval_cases(tie, terms, shard=300, timeout=1500, workdir=None, extra_eval
     """terms: list of Coq terms of type <tie>.case_t.  Returns (bad_model, bad_spec,
     errors) as global indices."""
     own = workdir is None
-    workdir = workdir or tempfile.mkdtemp(prefix="zi_verif_cases_")
+    workdir = workdir or tempfile.mkdtemp(prefix="zvc%d_" % os.getpid())
     shards = [terms[i:i + shard] for i in range(0, len(terms), shard)]
     files = []
     for k, sh in enumerate(shards):
@@ -298,7 +298,7 @@ def coq_eval_cases(tie, terms, shard=300, timeout=1500, workdir=None, extra_eval
 
 def coq_eval_expr(tie, case_term, expr, timeout=300):
     """Evaluate ``expr`` (a Coq expression mentioning ``c``) on one case and return Coq's printed answer."""
-    d = tempfile.mkdtemp(prefix="zi_verif_one_")
+    d = tempfile.mkdtemp(prefix="zvo%d_" % os.getpid())
     path = os.path.join(d, "one.v")
     with open(path, "w") as fh:
         fh.write("From Coq Require Import List ZArith NArith Bool.\nImport ListNotations.\n"
@@ -390,7 +390,7 @@ class Run:
                 self.known_hits.append(msg)
             return
         path = self.replay_path(tag)
-        if len(self.violations) >= 12:   # cap the number of replay files per run
+        if len(self.violations) >= 14 and not no_input:   # cap the number of replay files per run
             self.violations.append({"what": what, "replay": self.violations[-1]["replay"], "no_input": no_input})
             return
         with open(path, "w") as fh:
@@ -410,6 +410,8 @@ class Run:
         # concrete inputs first
         self.violations.sort(key=lambda v: v["no_input"])
         for v in self.violations[:20]:
+            log("  violation:", v["what"])
+        for v in [v for v in self.violations[20:] if v["no_input"]][:10]:
             log("  violation:", v["what"])
         if self.violations:
             v = self.violations[0]
